@@ -47,14 +47,16 @@ def observe(env, exc, rec_name="_rec"):
         if isinstance(v, (set, frozenset)) and d < 3:
             return ["set"] + sorted(repr(x) for x in v)
         if isinstance(v, types.FunctionType):
-            return "<function %s>" % v.__name__
+            return "<function %s doc=%r ann=%s>" % (v.__name__, v.__doc__, sorted((k, repr(a)) for k, a in getattr(v, "__annotations__", {}).items()))
         if isinstance(v, type):
-            return "<class %s>" % v.__name__
+            return "<class %s doc=%r>" % (v.__name__, v.__dict__.get("__doc__"))
         if hasattr(v, "v") and hasattr(v, "items"):
             return ["Box", ser(v.v, d + 1), ser(v.items, d + 1)]
         return "<%s>" % type(v).__name__
     out = {"bindings": {k: ser(v) for k, v in sorted(env.items()) if not k.startswith("__") and not k.startswith("_X5ix")
                         and k not in ("t", "Box", "deco")}}
+    if isinstance(env.get("__doc__"), str):
+        out["bindings"]["__doc__"] = env["__doc__"]
     if exc is not None:
         chain = []
         tb = exc.__traceback__
